@@ -502,8 +502,19 @@ fn random(out: &mut Out, rng: &mut Rng, n: u64, id0: u64) {
     }
 }
 
+/// cases kept verbatim (function + table + call): regression corpus of findings
+const PINNED: &str = r#"[
+{"fn":{"blocks":[1,0,0],"edges":[[0,1],[1,1],[1,2]],"entry":1,"exit":2},"lat":"pow3","tab":[[4,6,7,6,1,0,4,3,1],[5,1,7,6,3,5,5,1,4],[6,5,2,1,6,1,7,1,6],[0,0,2,4,4,5,4,3,5],[2,3,3,3,5,0,5,5,3],[5,0,0,7,5,2,5,4,1]],"dir":"bwd","api":"options","force":true,"budget":-1,"kind":"pinned"},
+{"fn":{"blocks":[1,0,0],"edges":[[0,1],[1,1],[1,2]],"entry":1,"exit":2},"lat":"pow3","tab":[[4,6,7,6,1,0,4,3,1],[5,1,7,6,3,5,5,1,4],[6,5,2,1,6,1,7,1,6],[0,0,2,4,4,5,4,3,5],[2,3,3,3,5,0,5,5,3],[5,0,0,7,5,2,5,4,1]],"dir":"bwd","api":"options","force":false,"budget":-1,"kind":"pinned"}
+]"#;
+
 fn corners(out: &mut Out, rng: &mut Rng, reps: u64) {
     let mut id = 0;
+    let pinned: Vec<Value> = serde_json::from_str(PINNED).expect("pinned cases");
+    for mut case in pinned {
+        run_case(out, id, &mut case, rng);
+        id += 1;
+    }
     let variants: [(&str, &str, bool, i64); 9] = [
         ("fwd", "plain", false, -1),
         ("bwd", "plain", false, -1),
